@@ -570,6 +570,22 @@ static void staticWrapperEpilogue(const Desc& d, Obs& o) {
 }
 
 void executeRun(const Desc& d, Obs& o) {
+    {   // Once per process, before the first run that counts: a handful of fixed runs on the ordinary heap. The library creates function-local statics on
+        // first use (the null plugin's name, ...); done here, their allocations take no part in the address steering of any real run, so a run behaves the
+        // same as the first of a fresh process and as the thousandth of a worker.
+        static bool warmed = false;
+        if (!warmed) {
+            warmed = true;
+            static const char* const profiles[] = { "lifecycle", "leaks", "junit", "teamcity", "pointers", "selection" };
+            for (size_t p = 0; p < 6; p++) for (uint64_t k = 1; k <= 3; k++) {
+                Desc w; w.engine = d.engine; w.profile = profiles[p]; w.variant = d.variant; w.seed = mix64(0x5EEDED, p * 16 + k);
+                generate(w.seed, w.profile, w, CPPUTEST_HAVE_EXCEPTIONS != 0);
+                w.p["steer"] = 0; w.p.erase("bucket");
+                Obs scratch; executeRun(w, scratch);
+            }
+            counters().c.clear();      // what the warm-up fired is not part of any run's record
+        }
+    }
     installBasicSeams(true); g_fileLayerActive = true;
     installHeapSeam(); g_steerSeed = d.seed; g_steerCount = 0; g_steerMode = (int)d.pi("bucket", -1); g_steerOn = d.pi("steer", 0) != 0 || g_steerMode >= 0;
     static bool first = true;
